@@ -165,6 +165,27 @@ var kinds = map[string]Kind{
 	"kshold-x":  {Name: "kshold-x", JIT: "keysend", InvDelta: rejectDelta, KsHold: ksHoldTime, Watch: true, HoldDelta: uint32(rejectDelta) - 1},
 }
 
+// fracBase / fracRems: invoice values with a NON-ZERO MILLI-SATOSHI REMAINDER, v = 2000 + r msat
+// (kinds "<base>-f<r>"). lnd's amounts are milli-satoshis, the unit of BOLT 11 amounts and of
+// value_msat of AddInvoice; every other kind's value is a whole number of satoshis, which makes a
+// comparison carried out in truncated units (ToSatoshis, /1000) indistinguishable from the exact one.
+const fracBase = int64(2000)
+
+var fracRems = []int64{1, 500, 999}
+
+func fracKind(base string, r int64) string { return fmt.Sprintf("%s-f%d", base, r) }
+
+func init() {
+	for _, base := range []string{"regular", "hold", "amp", "blinded"} {
+		for _, r := range fracRems {
+			k := kinds[base]
+			k.Name = fracKind(base, r)
+			k.Value = fracBase + r
+			kinds[k.Name] = k
+		}
+	}
+}
+
 // invoiceLife is the Terms.Expiry of the invoice under test in a Watch world, expiryJump what the
 // "X" event adds to the watcher's clock: past the invoice under test (and past a just-in-time
 // keysend invoice: KeysendHoldTime or the one-hour default), short of the bystander's 1000 h.
@@ -249,7 +270,10 @@ type htlcSpec struct {
 	//     ("a<set><shard>": update.go `ctx.amp != nil && ctx.mpp == nil`, processAMP "no MPP record")
 	Pay   byte
 	Addr  byte // 'r' right, 'w' wrong (non-zero), 'z' all-zero (BlankPayAddr), 'o' the bystander invoice's address, 0 no record
-	Tot   byte // '-' v-1, '0' v, '+' v+1, 'z' zero, 'H' 2^62, 'G' 2^63, 0 none
+	Tot   byte // '-' v-1, '0' v, '+' v+1, 'f' v truncated to whole satoshis, 'm' v-1000, 'z' zero, 'H' 2^62, 'G' 2^63, 0 none
+	// V is the invoice value v the relative total tokens refer to (0 = valueV; World.parse sets it
+	// to the value of the invoice kind, which differs from valueV only for the "-f<r>" kinds)
+	V     uint64
 	Amt   uint64
 	Exp   string // "lo" margin-1, "ok" margin, "hi" margin+1 above the base height, "z" expiry 0, "X" 2^31, "x" 2^32-1
 	Set   int    // amp set 1|2, 3 = the all-zero set id
@@ -262,12 +286,20 @@ type htlcSpec struct {
 	Icpt byte
 }
 
-func totalOf(t byte) uint64 {
-	switch t {
+func (s htlcSpec) totalOf() uint64 {
+	v := s.V
+	if v == 0 {
+		v = uint64(valueV)
+	}
+	switch s.Tot {
 	case '-':
-		return uint64(valueV - 1)
+		return v - 1
 	case '+':
-		return uint64(valueV + 1)
+		return v + 1
+	case 'f':
+		return v / 1000 * 1000 // the value truncated to whole satoshis (== v unless v has a msat remainder)
+	case 'm':
+		return v - 1000 // one whole satoshi below
 	case 'z':
 		return 0
 	case 'H':
@@ -275,7 +307,7 @@ func totalOf(t byte) uint64 {
 	case 'G':
 		return hugeI
 	}
-	return uint64(valueV)
+	return v
 }
 
 // parseHTLC parses "h:<pay>:<amt>:<exp>" ("hx:" / "ha:": with an interceptor answer).
@@ -378,7 +410,7 @@ func (s htlcSpec) declaredTotal() uint64 {
 	if s.Tot == 0 {
 		return s.recordedAmt()
 	}
-	return totalOf(s.Tot)
+	return s.totalOf()
 }
 
 func (s htlcSpec) hasTotal() bool { return s.Tot != 0 }
@@ -457,11 +489,11 @@ func (s htlcSpec) payload() *payload {
 	p := &payload{}
 	switch s.Pay {
 	case 'M', 'Z', 'Y':
-		p.mpp = record.NewMPP(lnwire.MilliSatoshi(totalOf(s.Tot)), addrOf(s.Addr))
+		p.mpp = record.NewMPP(lnwire.MilliSatoshi(s.totalOf()), addrOf(s.Addr))
 	case 'P':
 		a := chainhash.Hash(addrOf(s.Addr))
 		p.pathID = &a
-		p.totalMs = lnwire.MilliSatoshi(totalOf(s.Tot))
+		p.totalMs = lnwire.MilliSatoshi(s.totalOf())
 	case 'k':
 		// a keysend record on an HTLC that pays the invoice under test: the invoice's own
 		// preimage ('r'), another preimage ('w'), the all-zero preimage ('z')
@@ -494,7 +526,7 @@ func (s htlcSpec) payload() *payload {
 		if s.Bad {
 			share[0] ^= 1
 		}
-		p.mpp = record.NewMPP(lnwire.MilliSatoshi(totalOf(s.Tot)), addrOf(s.Addr))
+		p.mpp = record.NewMPP(lnwire.MilliSatoshi(s.totalOf()), addrOf(s.Addr))
 		p.amp = record.NewAMP(share, ampSetIDs[s.Set], c.Index)
 	}
 	return p
